@@ -46,9 +46,10 @@ static long patcoef(long s, long k) { long v = (s * 7 + k * k * 3 + k * (s + 1) 
 class TestSolver : public SQuIDS {
  public:
   int slot;
-  TestSolver() : slot(-1) {}
-  TestSolver(TestSolver&& o) : SQuIDS(std::move(o)), slot(-1) {}
-  TestSolver& operator=(TestSolver&& o) { SQuIDS::operator=(std::move(o)); return *this; }
+  bool tdep;     // time-dependent term family (see spec/SolverFlow.tla)
+  TestSolver() : slot(-1), tdep(false) {}
+  TestSolver(TestSolver&& o) : SQuIDS(std::move(o)), slot(-1), tdep(o.tdep) {}
+  TestSolver& operator=(TestSolver&& o) { tdep = o.tdep; SQuIDS::operator=(std::move(o)); return *this; }
   SU_vector diag(const std::vector<double>& dg) const {
     Mat M(nsun);
     for (unsigned j = 0; j < nsun; j++) M(j, j) = dg[j];
@@ -60,13 +61,13 @@ class TestSolver : public SQuIDS {
   SU_vector HI(unsigned int ei, unsigned int i, double t) const override {
     calls.push_back({"HI", (int)ei, (int)i, t});
     std::vector<double> dg(nsun);
-    for (unsigned j = 0; j < nsun; j++) dg[j] = M_PI / 2 * tab_h(ei, i, j);
+    for (unsigned j = 0; j < nsun; j++) dg[j] = M_PI / 2 * tab_h(ei, i, j) * (tdep ? (1 + 2 * t) : 1.0);
     return diag(dg);
   }
   SU_vector GammaRho(unsigned int ei, unsigned int i, double t) const override {
     calls.push_back({"GammaRho", (int)ei, (int)i, t});
     std::vector<double> dg(nsun);
-    for (unsigned j = 0; j < nsun; j++) dg[j] = M_LN2 * tab_g(ei, i, j);
+    for (unsigned j = 0; j < nsun; j++) dg[j] = M_LN2 * tab_g(ei, i, j) * (tdep ? 2 * t : 1.0);
     return diag(dg);
   }
   SU_vector InteractionsRho(unsigned int ei, unsigned int i, double t) const override {
@@ -77,7 +78,7 @@ class TestSolver : public SQuIDS {
   }
   double GammaScalar(unsigned int ei, unsigned int is, double t) const override {
     calls.push_back({"GammaScalar", (int)ei, (int)is, t});
-    return M_LN2 * tab_gs(ei, is);
+    return M_LN2 * tab_gs(ei, is) * (tdep ? 2 * t : 1.0);
   }
   double InteractionsScalar(unsigned int ei, unsigned int is, double t) const override {
     calls.push_back({"InteractionsScalar", (int)ei, (int)is, t});
@@ -195,6 +196,7 @@ int main() {
       } else if (cmd == "ANY") { int b; in >> o >> b; S(o - 1).Set_AnyNumerics(b); printf("{\"e\":\"SetAny\",\"o\":%d,\"b\":%s}\n", o, b ? "true" : "false");
       } else if (cmd == "STEPPER") { std::string n; int ad; unsigned ns; in >> o >> n >> ad >> ns; S(o - 1).Set_GSL_step(stepper(n)); S(o - 1).Set_AdaptiveStep(ad); S(o - 1).Set_NumSteps(ns);
       } else if (cmd == "TOL") { double r, a; in >> o >> r >> a; S(o - 1).Set_rel_error(r); S(o - 1).Set_abs_error(a);
+      } else if (cmd == "TDEP") { int b; in >> o >> b; S(o - 1).tdep = b;
       } else if (cmd == "HMIN") { double x; in >> o >> x; S(o - 1).Set_h_min(x);
       } else if (cmd == "SCALE") { int e2; in >> o >> e2; S(o - 1).scale_state(std::ldexp(1.0, e2));
       } else if (cmd == "QUIET") { int q; in >> q; quiet = q;
